@@ -130,6 +130,30 @@ End IterSession.
 
 Arguments take_n {R T}. Arguments ifuel {R T}. Arguments istep {R T}. Arguments irun {R T}.
 
+(* ---------- the caller's list of tables converted more than once (Round 6) ----------
+   from_arrow(tables, size) walks a list through iter(tables): the caller's list is only read.  A session converts the
+   SAME list several times (a capped preview, then everything; two frames over one list), each conversion consumed by
+   its own steps; the state threaded through is the caller's list itself. *)
+Section ListSession.
+Variable R : Type.
+Variable T : Type.
+Variable process_table : T -> N -> list R.
+
+(* one conversion: what its steps deliver, and the caller's list afterwards *)
+Definition lstep (tables : list T) (op : option N * list iop) : list (list R) * list T :=
+  (irun process_table (from_arrow_iter tables (fst op)) (snd op), tables).
+
+(* per conversion: the rows delivered by each step, and how many tables the caller's list still holds *)
+Fixpoint lrun (tables : list T) (ops : list (option N * list iop)) : list (list (list R) * nat) :=
+  match ops with
+  | [] => []
+  | op :: r => let '(o, tables') := lstep tables op in (o, length tables') :: lrun tables' r
+  end.
+
+End ListSession.
+
+Arguments lstep {R T}. Arguments lrun {R T}.
+
 (* what the property promises for a session over the rows E still to come: every step takes the next rows, in order *)
 Definition ispec_step {R : Type} (rest : list R) (op : iop) : list R * list R :=
   match op with
@@ -457,6 +481,7 @@ Definition construct (r : column) : column :=
 Inductive cop :=
 | CSetType (t : N) | CSetElem (e : option N) | CSetPrec (p : option Z) | CSetScale (s : option Z)
 | CSetName (nm : list N) | CSetNullable (b : bool)
+| CCopy                        (* the object is replaced by copy.copy / copy.deepcopy / a pickle round trip of itself *)
 | CField                       (* read column.arrow_field *)
 | CSchema (use_ids : bool).    (* convert_orso_schema_to_arrow_schema(RelationSchema(columns=[column]), use_ids) *)
 
@@ -468,7 +493,7 @@ Definition capply (c : column) (op : cop) : column :=
   | CSetScale s => mkCol (cname c) (ctype c) (celem c) (cprec c) s (cnullable c)
   | CSetName nm => mkCol nm (ctype c) (celem c) (cprec c) (cscale c) (cnullable c)
   | CSetNullable b => mkCol (cname c) (ctype c) (celem c) (cprec c) (cscale c) b
-  | CField | CSchema _ => c
+  | CCopy | CField | CSchema _ => c
   end.
 
 (* FlatColumn.from_arrow ends in the FlatColumn(...) constructor *)
@@ -833,3 +858,17 @@ Definition c11_show_colops (c : colops_case) :=
 
 Definition c11_check_colops (c : colops_case) : bool :=
   let '(ident, col, ops, obs) := c in all2 cread_agree (crun ident col ops) obs.
+
+(* ---------- Round 6: the caller's list of tables converted several times ---------- *)
+(* (the tables, per conversion: size and steps, per conversion: the rows each step delivered and len(list) afterwards) *)
+Definition listops_case : Type :=
+  list (list (list cell)) * list (option N * list iop) * list (list (list (list cell)) * N).
+
+Definition lout_agree (m : list (list (list cell)) * nat) (o : list (list (list cell)) * N) : bool :=
+  all2 rows_agree (fst m) (fst o) && (N.of_nat (snd m) =? snd o)%N.
+
+Definition c11_show_listops (c : listops_case) :=
+  let '(tables, ops, obs) := c in lrun pt_rows tables ops.
+
+Definition c11_check_listops (c : listops_case) : bool :=
+  let '(tables, ops, obs) := c in all2 lout_agree (lrun pt_rows tables ops) obs.
